@@ -25,6 +25,8 @@ import GoblVerif.Spec.C01
 import GoblVerif.Generated.CalcFacts
 import GoblVerif.Proofs.CalcError
 import GoblVerif.Proofs.NumX
+import GoblVerif.Proofs.CalcCurrency
+import GoblVerif.Proofs.BillCalcSrc
 
 namespace GoblVerif.Props.C01
 open GoblVerif GoblVerif.Calc GoblVerif.Spec GoblVerif.Spec.C01
@@ -531,5 +533,322 @@ theorem stmts_Percentage_Factor_as_modelled : stmts_Percentage_Factor =
     ["return p.amount.Add(factor1)"] := rfl
 
 end ExpectCalc
+
+/-! ## the tie to the source: regenerated definitions of /repo/bill and /repo/pay
+
+  `Generated/BillCalcSrc.lean` and `Generated/PayCalcSrc.lean` are the go2lean
+  translations (harness/cmd/extract/billcalcsrc.go, go2lean_effects.go) of the
+  calculation functions of bill/line_calculate.go, discounts.go, charges.go,
+  totals.go, payment_details.go, pay/advance.go and pay/terms.go AS THEY STAND
+  NOW.  Every definition is proved equal to the function of Model/Calc.lean it
+  corresponds to, for all arguments and for every `Ops` (so for `exactOps`, which
+  the theorems are about, and for `floatOps`, which the differential run uses);
+  `sub` is the currency table (`currency.Code.Def().Subunits`).  Not translated
+  (they stay on the shape pins of `ExpectCalc`): calculateLines, calculateLine,
+  calculateSubLine, calculateLineItemPrice, bill.calculate itself. -/
+namespace Src
+open GoblVerif.Generated GoblVerif.CalcSrc GoblVerif.Proofs.BillCalcSrc
+
+/-! ### the translation is complete; struct declarations, assumptions and primitives as reviewed -/
+
+theorem all_translated : BillCalcSrc.untranslated = [] ∧ PayCalcSrc.untranslated = [] := by decide
+
+theorem struct_BillCalcSrc_Charge_as_mapped :
+    BillCalcSrc.struct_Charge = [("Identify", "uuid.Identify"), ("Index", "int"), ("Key", "cbc.Key"), ("Code", "cbc.Code"), ("Reason", "string"), ("Base", "*num.Amount"), ("Percent", "*num.Percentage"), ("Amount", "num.Amount"), ("Taxes", "tax.Set"), ("Ext", "tax.Extensions"), ("Meta", "cbc.Meta")] ∧
+    BillCalcSrc.structLean_Charge = ("GoblVerif.Calc.DocAdj", ["base", "percent", "amount", "taxes"]) ∧
+    BillCalcSrc.structOmitted_Charge = ["Identify", "Index", "Key", "Code", "Reason", "Ext", "Meta"] := by decide
+
+theorem struct_BillCalcSrc_Discount_as_mapped :
+    BillCalcSrc.struct_Discount = [("Identify", "uuid.Identify"), ("Index", "int"), ("Key", "cbc.Key"), ("Code", "cbc.Code"), ("Reason", "string"), ("Base", "*num.Amount"), ("Percent", "*num.Percentage"), ("Amount", "num.Amount"), ("Taxes", "tax.Set"), ("Ext", "tax.Extensions"), ("Meta", "cbc.Meta")] ∧
+    BillCalcSrc.structLean_Discount = ("GoblVerif.Calc.DocAdj", ["base", "percent", "amount", "taxes"]) ∧
+    BillCalcSrc.structOmitted_Discount = ["Identify", "Index", "Key", "Code", "Reason", "Ext", "Meta"] := by decide
+
+theorem struct_BillCalcSrc_LineCharge_as_mapped :
+    BillCalcSrc.struct_LineCharge = [("Key", "cbc.Key"), ("Code", "cbc.Code"), ("Reason", "string"), ("Base", "*num.Amount"), ("Percent", "*num.Percentage"), ("Quantity", "*num.Amount"), ("Unit", "org.Unit"), ("Rate", "*num.Amount"), ("Amount", "num.Amount"), ("Ext", "tax.Extensions")] ∧
+    BillCalcSrc.structLean_LineCharge = ("GoblVerif.Calc.LineAdj", ["base", "percent", "quantity", "rate", "amount"]) ∧
+    BillCalcSrc.structOmitted_LineCharge = ["Key", "Code", "Reason", "Unit", "Ext"] := by decide
+
+theorem struct_BillCalcSrc_LineDiscount_as_mapped :
+    BillCalcSrc.struct_LineDiscount = [("Key", "cbc.Key"), ("Code", "cbc.Code"), ("Reason", "string"), ("Base", "*num.Amount"), ("Percent", "*num.Percentage"), ("Amount", "num.Amount"), ("Ext", "tax.Extensions")] ∧
+    BillCalcSrc.structLean_LineDiscount = ("LineDiscount", ["Base", "Percent", "Amount"]) ∧
+    BillCalcSrc.structOmitted_LineDiscount = ["Key", "Code", "Reason", "Ext"] := by decide
+
+theorem struct_BillCalcSrc_org_Item_as_mapped :
+    BillCalcSrc.struct_org_Item = [("Identify", "uuid.Identify"), ("Ref", "cbc.Code"), ("Key", "cbc.Key"), ("Name", "string"), ("Identities", "[]*org.Identity"), ("Description", "string"), ("Currency", "currency.Code"), ("Price", "*num.Amount"), ("AltPrices", "[]*currency.Amount"), ("Unit", "org.Unit"), ("Origin", "l10n.ISOCountryCode"), ("Ext", "tax.Extensions"), ("Meta", "cbc.Meta")] ∧
+    BillCalcSrc.structLean_org_Item = ("Item", ["Currency", "Price"]) ∧
+    BillCalcSrc.structOmitted_org_Item = ["Identify", "Ref", "Key", "Name", "Identities", "Description", "AltPrices", "Unit", "Origin", "Ext", "Meta"] := by decide
+
+theorem struct_BillCalcSrc_SubLine_as_mapped :
+    BillCalcSrc.struct_SubLine = [("Identify", "uuid.Identify"), ("Index", "int"), ("Quantity", "num.Amount"), ("Identifier", "*org.Identity"), ("Period", "*cal.Period"), ("Order", "cbc.Code"), ("Cost", "cbc.Code"), ("Item", "*org.Item"), ("Sum", "*num.Amount"), ("Discounts", "[]*LineDiscount"), ("Charges", "[]*LineCharge"), ("Total", "*num.Amount"), ("Notes", "[]*org.Note")] ∧
+    BillCalcSrc.structLean_SubLine = ("SubLine", ["Quantity", "Item", "Sum", "Discounts", "Charges", "Total"]) ∧
+    BillCalcSrc.structOmitted_SubLine = ["Identify", "Index", "Identifier", "Period", "Order", "Cost", "Notes"] := by decide
+
+theorem struct_BillCalcSrc_Line_as_mapped :
+    BillCalcSrc.struct_Line = [("Identify", "uuid.Identify"), ("Index", "int"), ("Quantity", "num.Amount"), ("Identifier", "*org.Identity"), ("Period", "*cal.Period"), ("Order", "cbc.Code"), ("Cost", "cbc.Code"), ("Item", "*org.Item"), ("Breakdown", "[]*SubLine"), ("Sum", "*num.Amount"), ("Discounts", "[]*LineDiscount"), ("Charges", "[]*LineCharge"), ("Taxes", "tax.Set"), ("Total", "*num.Amount"), ("Substituted", "[]*SubLine"), ("Notes", "[]*org.Note")] ∧
+    BillCalcSrc.structLean_Line = ("Line", ["Quantity", "Item", "Breakdown", "Sum", "Discounts", "Charges", "Taxes", "Total", "Substituted"]) ∧
+    BillCalcSrc.structOmitted_Line = ["Identify", "Index", "Identifier", "Period", "Order", "Cost", "Notes"] := by decide
+
+theorem struct_BillCalcSrc_pay_Advance_as_mapped :
+    BillCalcSrc.struct_pay_Advance = [("Identify", "uuid.Identify"), ("Date", "*cal.Date"), ("Key", "cbc.Key"), ("Ref", "string"), ("Grant", "bool"), ("Description", "string"), ("Percent", "*num.Percentage"), ("Amount", "num.Amount"), ("Currency", "currency.Code"), ("Card", "*pay.Card"), ("CreditTransfer", "*pay.CreditTransfer"), ("Ext", "tax.Extensions"), ("Meta", "cbc.Meta")] ∧
+    BillCalcSrc.structLean_pay_Advance = ("GoblVerif.Calc.Advance", ["percent", "amount"]) ∧
+    BillCalcSrc.structOmitted_pay_Advance = ["Identify", "Date", "Key", "Ref", "Grant", "Description", "Currency", "Card", "CreditTransfer", "Ext", "Meta"] := by decide
+
+theorem struct_BillCalcSrc_PaymentDetails_as_mapped :
+    BillCalcSrc.struct_PaymentDetails = [("Payee", "*org.Party"), ("Terms", "*pay.Terms"), ("Advances", "[]*pay.Advance"), ("Instructions", "*pay.Instructions")] ∧
+    BillCalcSrc.structLean_PaymentDetails = ("PaymentDetails", ["Advances"]) ∧
+    BillCalcSrc.structOmitted_PaymentDetails = ["Payee", "Terms", "Instructions"] := by decide
+
+theorem struct_BillCalcSrc_Totals_as_mapped :
+    BillCalcSrc.struct_Totals = [("Sum", "num.Amount"), ("Discount", "*num.Amount"), ("Charge", "*num.Amount"), ("TaxIncluded", "*num.Amount"), ("Total", "num.Amount"), ("Taxes", "*tax.Total"), ("Tax", "num.Amount"), ("TotalWithTax", "num.Amount"), ("Rounding", "*num.Amount"), ("Payable", "num.Amount"), ("Advances", "*num.Amount"), ("Due", "*num.Amount")] ∧
+    BillCalcSrc.structLean_Totals = ("GoblVerif.Calc.Totals", ["sum", "discount", "charge", "taxIncluded", "total", "taxes", "tax", "totalWithTax", "rounding", "payable", "advances", "due"]) ∧
+    BillCalcSrc.structOmitted_Totals = [] := by decide
+
+theorem struct_PayCalcSrc_Advance_as_mapped :
+    PayCalcSrc.struct_Advance = [("Identify", "uuid.Identify"), ("Date", "*cal.Date"), ("Key", "cbc.Key"), ("Ref", "string"), ("Grant", "bool"), ("Description", "string"), ("Percent", "*num.Percentage"), ("Amount", "num.Amount"), ("Currency", "currency.Code"), ("Card", "*Card"), ("CreditTransfer", "*CreditTransfer"), ("Ext", "tax.Extensions"), ("Meta", "cbc.Meta")] ∧
+    PayCalcSrc.structLean_Advance = ("GoblVerif.Calc.Advance", ["percent", "amount"]) ∧
+    PayCalcSrc.structOmitted_Advance = ["Identify", "Date", "Key", "Ref", "Grant", "Description", "Currency", "Card", "CreditTransfer", "Ext", "Meta"] := by decide
+
+theorem struct_PayCalcSrc_DueDate_as_mapped :
+    PayCalcSrc.struct_DueDate = [("Date", "*cal.Date"), ("Notes", "string"), ("Amount", "num.Amount"), ("Percent", "*num.Percentage"), ("Currency", "currency.Code")] ∧
+    PayCalcSrc.structLean_DueDate = ("GoblVerif.Calc.Due", ["amount", "percent"]) ∧
+    PayCalcSrc.structOmitted_DueDate = ["Date", "Notes", "Currency"] := by decide
+
+theorem struct_PayCalcSrc_Terms_as_mapped :
+    PayCalcSrc.struct_Terms = [("Key", "cbc.Key"), ("Detail", "string"), ("DueDates", "[]*DueDate"), ("Notes", "string"), ("Ext", "tax.Extensions")] ∧
+    PayCalcSrc.structLean_Terms = ("Terms", ["DueDates"]) ∧
+    PayCalcSrc.structOmitted_Terms = ["Key", "Detail", "Notes", "Ext"] := by decide
+
+/-- what the translation assumes beyond its general reading of Go: nil-free
+    slices, which parameters are returned, the effect loops (distinct pointees that
+    nobody else holds), the `*t.X = v` writes of `Totals.round`, the dropped writes
+    to `Index` (not represented), the calls whose results are stored back, `&x`
+    of locals assigned only before, the primitives (methods of num.Amount,
+    num.Percentage, currency.Def and tax.ApplyRoundingRule as the operations of
+    Model/Calc.lean); no unsigned subtraction, no condition-controlled loop, no map -/
+theorem assumptions_BillCalcSrc_as_reviewed :
+    BillCalcSrc.translated = ["calculateLineSum", "calculateLineDiscounts", "calculateLineCharges", "determineSubLinePrecision", "LineDiscount.round", "LineCharge.round", "SubLine.round", "Line.round", "roundLines", "calculateDiscounts", "calculateDiscountSum", "Discount.round", "roundDiscounts", "calculateCharges", "calculateChargeSum", "Charge.round", "roundCharges", "Totals.reset", "Totals.round", "PaymentDetails.calculateAdvances", "PaymentDetails.totalAdvance"] ∧
+    BillCalcSrc.nonNilElems = ["[]*Charge", "[]*Discount", "[]*Line", "[]*LineCharge", "[]*LineDiscount", "[]*SubLine", "[]*pay.Advance"] ∧
+    BillCalcSrc.inOutParams = [("calculateLineDiscounts", "discounts"), ("calculateLineCharges", "charges"), ("LineDiscount.round", "d"), ("LineCharge.round", "c"), ("SubLine.round", "sl"), ("Line.round", "l"), ("roundLines", "lines"), ("calculateDiscounts", "lines"), ("Discount.round", "m"), ("roundDiscounts", "lines"), ("calculateCharges", "lines"), ("Charge.round", "m"), ("roundCharges", "lines"), ("Totals.reset", "t"), ("Totals.round", "t"), ("PaymentDetails.calculateAdvances", "p"), ("PaymentDetails.totalAdvance", "p")] ∧
+    BillCalcSrc.effectPrimitives = [("pay.Advance.CalculateFrom", "GoblVerif.Generated.PayCalcSrc.Advance_CalculateFrom o sub {0} {1}")] ∧
+    BillCalcSrc.contextParams = [("o", "GoblVerif.Calc.Ops"), ("sub", "String → Nat")] ∧
+    BillCalcSrc.effectLoops = [("calculateLineDiscounts", "discounts"), ("calculateLineCharges", "charges"), ("Line.round", "l.Discounts"), ("Line.round", "l.Charges"), ("Line.round", "l.Breakdown"), ("Line.round", "l.Substituted"), ("roundLines", "lines"), ("calculateDiscounts", "lines"), ("roundDiscounts", "lines"), ("calculateCharges", "lines"), ("roundCharges", "lines"), ("PaymentDetails.calculateAdvances", "p.Advances"), ("PaymentDetails.totalAdvance", "p.Advances")] ∧
+    BillCalcSrc.ptrWrites = [("Totals.round", "*t.Discount"), ("Totals.round", "*t.Charge"), ("Totals.round", "*t.TaxIncluded"), ("Totals.round", "*t.Advances"), ("Totals.round", "*t.Due")] ∧
+    BillCalcSrc.droppedWrites = [("calculateDiscounts", "l.Index"), ("calculateCharges", "l.Index")] ∧
+    BillCalcSrc.inOutCalls = [("Line.round", "d.round(e)"), ("Line.round", "c.round(e)"), ("Line.round", "sl.round(e)"), ("roundLines", "l.round()"), ("roundDiscounts", "l.round(cur)"), ("roundCharges", "l.round(cur)"), ("PaymentDetails.calculateAdvances", "a.CalculateFrom(totalWithTax)")] ∧
+    BillCalcSrc.addrOfAssigned = [("calculateDiscountSum", "&total"), ("calculateChargeSum", "&total"), ("PaymentDetails.totalAdvance", "&sum")] ∧
+    BillCalcSrc.primitives = [ ("currency.Code.Def", "(some (sub {0}) : Option Nat)"), ("currency.Def.RescaleUp", "GoblVerif.Calc.up {1} ({0}.get!)"), ("currency.Def.Subunits", "{0}"), ("currency.Def.Zero", "(GoblVerif.Amount.mk 0 ({0}.get!))"), ("num.Amount.Add", "GoblVerif.Calc.add o {0} {1}"), ("num.Amount.Exp", "{0}.exp"), ("num.Amount.MatchPrecision", "GoblVerif.CalcSrc.matchPrecision {0} {1}"), ("num.Amount.Multiply", "o.mul {0} {1}"), ("num.Amount.Rescale", "o.rescale {0} {1}"), ("num.Amount.RescaleDown", "GoblVerif.Calc.down o {0} {1}"), ("num.Amount.RescaleUp", "GoblVerif.Calc.up {0} {1}"), ("num.Amount.Subtract", "GoblVerif.Calc.sub o {0} {1}"), ("num.Percentage.IsZero", "GoblVerif.Calc.pctIsZero {0}"), ("num.Percentage.Of", "GoblVerif.Calc.pctOf o {0} {1}"), ("tax.ApplyRoundingRule", "GoblVerif.CalcSrc.applyRoundingRule o sub {0} {1} {2}")] ∧
+    BillCalcSrc.natSubs = [] ∧
+    BillCalcSrc.fuelChecks = [] ∧
+    BillCalcSrc.mapRanges = [] ∧
+    BillCalcSrc.mapWrites = [] ∧
+    BillCalcSrc.mapNilTests = [] := by decide
+
+theorem namedTypes_BillCalcSrc_as_reviewed :
+    BillCalcSrc.namedTypes.map (fun t => (t.1, t.2.2)) = [("cbc.Key", "String"), ("currency.Code", "String"), ("currency.Def", "Nat"), ("num.Amount", "GoblVerif.Amount"), ("num.Percentage", "GoblVerif.Pct"), ("tax.Set", "List GoblVerif.Calc.Combo"), ("tax.Total", "GoblVerif.Calc.TaxTotal")] := by decide
+
+theorem assumptions_PayCalcSrc_as_reviewed :
+    PayCalcSrc.translated = ["Advance.CalculateFrom", "Terms.CalculateDues"] ∧
+    PayCalcSrc.nonNilElems = ["[]*DueDate"] ∧
+    PayCalcSrc.inOutParams = [("Advance.CalculateFrom", "a"), ("Terms.CalculateDues", "t")] ∧
+    PayCalcSrc.effectPrimitives = [] ∧
+    PayCalcSrc.contextParams = [("o", "GoblVerif.Calc.Ops"), ("sub", "String → Nat")] ∧
+    PayCalcSrc.effectLoops = [("Terms.CalculateDues", "t.DueDates")] ∧
+    PayCalcSrc.ptrWrites = [] ∧
+    PayCalcSrc.droppedWrites = [] ∧
+    PayCalcSrc.inOutCalls = [] ∧
+    PayCalcSrc.addrOfAssigned = [] ∧
+    PayCalcSrc.primitives = [ ("currency.Code.Def", "(some (sub {0}) : Option Nat)"), ("currency.Def.RescaleUp", "GoblVerif.Calc.up {1} ({0}.get!)"), ("currency.Def.Subunits", "{0}"), ("currency.Def.Zero", "(GoblVerif.Amount.mk 0 ({0}.get!))"), ("num.Amount.Add", "GoblVerif.Calc.add o {0} {1}"), ("num.Amount.Exp", "{0}.exp"), ("num.Amount.MatchPrecision", "GoblVerif.CalcSrc.matchPrecision {0} {1}"), ("num.Amount.Multiply", "o.mul {0} {1}"), ("num.Amount.Rescale", "o.rescale {0} {1}"), ("num.Amount.RescaleDown", "GoblVerif.Calc.down o {0} {1}"), ("num.Amount.RescaleUp", "GoblVerif.Calc.up {0} {1}"), ("num.Amount.Subtract", "GoblVerif.Calc.sub o {0} {1}"), ("num.Percentage.IsZero", "GoblVerif.Calc.pctIsZero {0}"), ("num.Percentage.Of", "GoblVerif.Calc.pctOf o {0} {1}"), ("tax.ApplyRoundingRule", "GoblVerif.CalcSrc.applyRoundingRule o sub {0} {1} {2}")] ∧
+    PayCalcSrc.natSubs = [] ∧
+    PayCalcSrc.fuelChecks = [] ∧
+    PayCalcSrc.mapRanges = [] ∧
+    PayCalcSrc.mapWrites = [] ∧
+    PayCalcSrc.mapNilTests = [] := by decide
+
+theorem namedTypes_PayCalcSrc_as_reviewed :
+    PayCalcSrc.namedTypes.map (fun t => (t.1, t.2.2)) = [("cbc.Key", "String"), ("currency.Code", "String"), ("num.Amount", "GoblVerif.Amount"), ("num.Percentage", "GoblVerif.Pct")] := by decide
+
+/-! ### regenerated definition = model, for all arguments -/
+
+/-- `calculateLineSum`: the lines enter only through their totals -/
+theorem src_calculateLineSum (o : Ops) (sub : String → Nat) (ls : List BillCalcSrc.Line) (ms : List Line) (cur : String)
+    (h : ls.map (·.Total) = ms.map (·.total)) :
+    BillCalcSrc.calculateLineSum o sub ls cur = lineSum o (sub cur) ms := by
+  rw [calculateLineSum_eq]
+  unfold lineSum
+  have : ls.filterMap (·.Total) = ms.filterMap (·.total) := by
+    have h1 : ls.filterMap (·.Total) = (ls.map (·.Total)).filterMap id := by rw [List.filterMap_map]; rfl
+    have h2 : ms.filterMap (·.total) = (ms.map (·.total)).filterMap id := by rw [List.filterMap_map]; rfl
+    rw [h1, h2, h]
+  rw [this]
+
+/-- with the conversion `toLine` (any conversion of the item) -/
+theorem src_calculateLineSum_toLine (o : Ops) (sub : String → Nat) (fI : BillCalcSrc.Item → Item) (ls : List BillCalcSrc.Line) (cur : String) :
+    BillCalcSrc.calculateLineSum o sub ls cur = lineSum o (sub cur) (ls.map (toLine fI)) :=
+  src_calculateLineSum o sub ls _ cur (by rw [List.map_map]; rfl)
+
+/-- `calculateLineDiscounts`: the rows written back and the new running total -/
+theorem src_calculateLineDiscounts (o : Ops) (sub : String → Nat) (ds : List BillCalcSrc.LineDiscount)
+    (sum total : Amount) (cur rr : String) :
+    let r := BillCalcSrc.calculateLineDiscounts o sub ds sum total cur rr
+    (r.2.map toAdj, r.1) = lineDiscounts o (ruleOf rr) (sub cur) sum (ds.map toAdj) total :=
+  calculateLineDiscounts_eq o sub ds sum total cur rr
+
+/-- `calculateLineCharges` -/
+theorem src_calculateLineCharges (o : Ops) (sub : String → Nat) (cs : List LineAdj) (q sum total : Amount) (cur rr : String) :
+    let r := BillCalcSrc.calculateLineCharges o sub cs q sum total cur rr
+    (r.2, r.1) = lineCharges o (ruleOf rr) (sub cur) q sum cs total :=
+  calculateLineCharges_eq o sub cs q sum total cur rr
+
+/-- `determineSubLinePrecision` -/
+theorem src_determineSubLinePrecision (o : Ops) (sub : String → Nat) (fI : BillCalcSrc.Item → Item)
+    (hfI : ∀ it, (fI it).price = it.Price) (sls : List BillCalcSrc.SubLine) :
+    BillCalcSrc.determineSubLinePrecision o sub sls = subLinePrecision (sls.map (toSubLine fI)) :=
+  determineSubLinePrecision_model o sub fI hfI sls
+
+/-- `(*LineDiscount).round`, `(*LineCharge).round`, `(*SubLine).round` -/
+theorem src_adj_rounds (o : Ops) (sub : String → Nat) (fI : BillCalcSrc.Item → Item) (e : ℕ) :
+    (∀ d, toAdj (BillCalcSrc.LineDiscount_round o sub d e) = roundAdj o e (toAdj d)) ∧
+    (∀ c, BillCalcSrc.LineCharge_round o sub c e = roundAdj o e c) ∧
+    (∀ sl, toSubLine fI (BillCalcSrc.SubLine_round o sub sl e) = roundSubLine o e (toSubLine fI sl)) :=
+  ⟨fun d => LineDiscount_round_eq o sub d e, fun c => LineCharge_round_eq o sub c e,
+   fun sl => SubLine_round_eq o sub fI sl e⟩
+
+/-- `(*Line).round` -/
+theorem src_Line_round (o : Ops) (sub : String → Nat) (fI : BillCalcSrc.Item → Item)
+    (hfI : ∀ it, (fI it).price = it.Price) (l : BillCalcSrc.Line) :
+    toLine fI (BillCalcSrc.Line_round o sub l) = roundLine o (toLine fI l) :=
+  Line_round_eq o sub fI hfI l
+
+/-- `roundLines` -/
+theorem src_roundLines (o : Ops) (sub : String → Nat) (fI : BillCalcSrc.Item → Item)
+    (hfI : ∀ it, (fI it).price = it.Price) (ls : List BillCalcSrc.Line) :
+    (BillCalcSrc.roundLines o sub ls).map (toLine fI) = (ls.map (toLine fI)).map (roundLine o) :=
+  roundLines_eq o sub fI hfI ls
+
+/-- `calculateDiscounts` and `calculateCharges` -/
+theorem src_calculateDiscounts_Charges (o : Ops) (sub : String → Nat) (ds : List DocAdj) (cur : String) (sum : Amount) (rr : String) :
+    BillCalcSrc.calculateDiscounts o sub ds cur sum rr = ds.map (docAdj o (ruleOf rr) (sub cur) sum) ∧
+    BillCalcSrc.calculateCharges o sub ds cur sum rr = ds.map (docAdj o (ruleOf rr) (sub cur) sum) :=
+  ⟨calculateDiscounts_eq o sub ds cur sum rr, calculateCharges_eq o sub ds cur sum rr⟩
+
+/-- `calculateDiscountSum` and `calculateChargeSum` -/
+theorem src_adjustment_sums (o : Ops) (sub : String → Nat) (ds : List DocAdj) (cur : String) :
+    BillCalcSrc.calculateDiscountSum o sub ds cur = adjSum o (sub cur) ds ∧
+    BillCalcSrc.calculateChargeSum o sub ds cur = adjSum o (sub cur) ds :=
+  ⟨calculateDiscountSum_eq o sub ds cur, calculateChargeSum_eq o sub ds cur⟩
+
+/-- `(*Discount).round`, `(*Charge).round`, `roundDiscounts`, `roundCharges` -/
+theorem src_docAdj_rounds (o : Ops) (sub : String → Nat) (cur : String) :
+    (∀ m, BillCalcSrc.Discount_round o sub m cur = roundDocAdj o (sub cur) m) ∧
+    (∀ m, BillCalcSrc.Charge_round o sub m cur = roundDocAdj o (sub cur) m) ∧
+    (∀ ds, BillCalcSrc.roundDiscounts o sub ds cur = ds.map (roundDocAdj o (sub cur))) ∧
+    (∀ ds, BillCalcSrc.roundCharges o sub ds cur = ds.map (roundDocAdj o (sub cur))) :=
+  ⟨fun m => Discount_round_eq o sub m cur, fun m => Charge_round_eq o sub m cur,
+   fun ds => roundDiscounts_eq o sub ds cur, fun ds => roundCharges_eq o sub ds cur⟩
+
+/-- `(*Totals).round` -/
+theorem src_Totals_round (o : Ops) (sub : String → Nat) (t : Totals) (zero : Amount) :
+    BillCalcSrc.Totals_round o sub t zero = roundTotals o zero.exp t :=
+  Totals_round_eq o sub t zero
+
+/-- `(*Totals).reset`: every figure is cleared, the externally supplied rounding stays
+    (the model builds the totals from scratch in `rawTotals`, keeping `rounding`) -/
+theorem src_Totals_reset (o : Ops) (sub : String → Nat) (t : Totals) (zero : Amount) :
+    BillCalcSrc.Totals_reset o sub t zero =
+      { sum := zero, discount := none, charge := none, taxIncluded := none, total := zero, taxes := none, tax := zero,
+        totalWithTax := zero, rounding := t.rounding, payable := zero, advances := none, due := none } :=
+  Totals_reset_eq o sub t zero
+
+/-- `(*pay.Advance).CalculateFrom` and `(*PaymentDetails).calculateAdvances` -/
+theorem src_calculateAdvances (o : Ops) (sub : String → Nat) (p : BillCalcSrc.PaymentDetails) (zero twt : Amount) :
+    (∀ a : Advance, PayCalcSrc.Advance_CalculateFrom o sub a twt =
+      (match a.percent with | some pc => { a with amount := pctOf o pc twt } | none => a)) ∧
+    BillCalcSrc.PaymentDetails_calculateAdvances o sub p zero twt =
+      { p with Advances := p.Advances.map (calcAdvance o zero.exp twt) } :=
+  ⟨fun a => Advance_CalculateFrom_eq o sub a twt, calculateAdvances_eq o sub p zero twt⟩
+
+/-- `(*PaymentDetails).totalAdvance` at the currency's zero: the total of the
+    model, and the stored amounts rounded as in `finish`; nil gives nil -/
+theorem src_totalAdvance (o : Ops) (sub : String → Nat) (p : BillCalcSrc.PaymentDetails) (c : ℕ) :
+    BillCalcSrc.PaymentDetails_totalAdvance o sub (some p) ⟨0, c⟩ =
+      (advanceTotal o c p.Advances,
+       some { p with Advances := p.Advances.map (fun a => { a with amount := o.rescale a.amount c }) }) ∧
+    BillCalcSrc.PaymentDetails_totalAdvance o sub none ⟨0, c⟩ = (none, none) := by
+  refine ⟨?_, totalAdvance_none o sub _⟩
+  rw [totalAdvance_eq]
+  unfold advanceTotal
+  by_cases h : p.Advances.isEmpty = true
+  · obtain ⟨advs⟩ := p
+    have : advs = [] := by simpa using h
+    subst this
+    simp
+  · simp [h]
+
+/-- `(*pay.Terms).CalculateDues` -/
+theorem src_CalculateDues (o : Ops) (sub : String → Nat) (t : PayCalcSrc.Terms) (zero sum : Amount) :
+    PayCalcSrc.Terms_CalculateDues o sub (some t) zero sum =
+      some { t with DueDates := t.DueDates.map (calcDue o zero.exp sum) } ∧
+    PayCalcSrc.Terms_CalculateDues o sub none zero sum = none :=
+  ⟨CalculateDues_eq o sub t zero sum, CalculateDues_none o sub zero sum⟩
+
+/-! ### headline statements of C01 / C03 over the regenerated definitions -/
+
+/-- C01 "sums never round", about the code: the regenerated `calculateLineSum` is
+    exactly the sum of the line totals, at no less than the currency's precision -/
+theorem spec_of_the_source_line_sum (sub : String → Nat) (ls : List BillCalcSrc.Line) (cur : String) :
+    (BillCalcSrc.calculateLineSum exactOps sub ls cur).toRat = ((ls.filterMap (·.Total)).map Amount.toRat).sum ∧
+    sub cur ≤ (BillCalcSrc.calculateLineSum exactOps sub ls cur).exp := by
+  rw [calculateLineSum_eq]
+  refine ⟨?_, ?_⟩
+  · rw [foldl_accum_toRat]; simp [Amount.toRat]
+  · exact foldl_accum_exp_ge _ ⟨0, sub cur⟩
+
+/-- C01 "presentation", about the code: after the regenerated `(*Totals).round`
+    every presented total has exactly the currency's number of decimals -/
+theorem spec_of_the_source_presented_precision (sub : String → Nat) (t : Totals) (zero : Amount) :
+    let r := BillCalcSrc.Totals_round exactOps sub t zero
+    r.sum.exp = zero.exp ∧ r.total.exp = zero.exp ∧ r.tax.exp = zero.exp ∧ r.totalWithTax.exp = zero.exp ∧
+    r.payable.exp = zero.exp ∧
+    (∀ x, r.discount = some x → x.exp = zero.exp) ∧ (∀ x, r.charge = some x → x.exp = zero.exp) ∧
+    (∀ x, r.taxIncluded = some x → x.exp = zero.exp) ∧ (∀ x, r.advances = some x → x.exp = zero.exp) ∧
+    (∀ x, r.due = some x → x.exp = zero.exp) := by
+  rw [Totals_round_eq]
+  exact presented_precision zero.exp t
+
+/-- C03 "document rows re-add", about the code: under the currency rule every
+    amount the regenerated `calculateDiscounts` / `calculateCharges` leaves has
+    exactly the currency's decimals, and the regenerated discount / charge sum is
+    exactly the sum of its rows -/
+theorem spec_of_the_source_document_rows (sub : String → Nat) (ds : List DocAdj) (cur : String) (sum : Amount) :
+    (∀ d ∈ BillCalcSrc.calculateDiscounts exactOps sub ds cur sum "currency", d.amount.exp = sub cur) ∧
+    (∀ d ∈ BillCalcSrc.calculateCharges exactOps sub ds cur sum "currency", d.amount.exp = sub cur) ∧
+    (∀ s, BillCalcSrc.calculateDiscountSum exactOps sub ds cur = some s → s.toRat = (ds.map (·.amount.toRat)).sum) ∧
+    (∀ s, BillCalcSrc.calculateChargeSum exactOps sub ds cur = some s → s.toRat = (ds.map (·.amount.toRat)).sum) := by
+  rw [calculateDiscounts_eq, calculateCharges_eq, calculateDiscountSum_eq, calculateChargeSum_eq]
+  have hr : ruleOf "currency" = .currency := by decide
+  rw [hr]
+  refine ⟨?_, ?_, ?_, ?_⟩
+  · intro d hd
+    obtain ⟨x, _, rfl⟩ := List.mem_map.mp hd
+    exact GoblVerif.Calc.docAdj_currency_exp (sub cur) sum x
+  · intro d hd
+    obtain ⟨x, _, rfl⟩ := List.mem_map.mp hd
+    exact GoblVerif.Calc.docAdj_currency_exp (sub cur) sum x
+  · intro s h; exact sums_exact_adjustments (sub cur) ds s h
+  · intro s h; exact sums_exact_adjustments (sub cur) ds s h
+
+/-- the hypotheses above are satisfiable and the definitions compute: a 10 %
+    discount on 100.00 EUR under the currency rule, through the regenerated code -/
+example :
+    BillCalcSrc.calculateDiscounts exactOps (fun _ => 2) [⟨some ⟨⟨10, 2⟩⟩, none, ⟨0, 0⟩, []⟩] "EUR" ⟨10000, 2⟩ "currency" =
+      [⟨some ⟨⟨10, 2⟩⟩, none, ⟨1000, 2⟩, []⟩] ∧
+    BillCalcSrc.calculateDiscountSum exactOps (fun _ => 2) [⟨some ⟨⟨10, 2⟩⟩, none, ⟨1000, 2⟩, []⟩] "EUR" = some ⟨1000, 2⟩ ∧
+    (BillCalcSrc.Totals_round exactOps (fun _ => 2)
+      { sum := ⟨100005, 3⟩, discount := none, charge := none, taxIncluded := none, total := ⟨100005, 3⟩, taxes := none,
+        tax := ⟨0, 2⟩, totalWithTax := ⟨100005, 3⟩, rounding := none, payable := ⟨100005, 3⟩, advances := none,
+        due := none } ⟨0, 2⟩).sum = ⟨10001, 2⟩ := by
+  decide +kernel
+
+end Src
 
 end GoblVerif.Props.C01
